@@ -1,7 +1,7 @@
 (* Model of the stats events of goat (C20, stats part): for each role the list
    of events ONE installed stats.Handler receives for one RPC, for every exit
    of the code path. Written from the code; every constructor names its source
-   lines (as of /repo d781f2b). With n handlers installed every emission site
+   lines (as of /repo 9827a73). With n handlers installed every emission site
    loops over all of them, so the list seen by handler i does not depend on n;
    handler i's events are tagged with the context ITS TagRPC returned (Begin
    is emitted with the context after handlers 0..i tagged it, later events with
@@ -16,11 +16,15 @@ Inductive sev :=
 | End (err_nil : bool).
 
 (* is the error that ends the RPC io.EOF (errors.Is)? internal/util.go
-   StatsEndRPC l.134: End.Error = nil iff appErr == nil || errors.Is(appErr, io.EOF) *)
+   StatsEndRPC: on the server (isClient = false) End.Error = nil iff
+   appErr == nil || errors.Is(appErr, io.EOF) *)
 Inductive res := RNil | RErr | REof.
 Definition end_helper (r : res) : sev :=
   End (match r with RNil => true | RErr => false | REof => true end).
 Definition res_ok (r : res) : bool := match r with RNil => true | _ => false end.
+(* since fix 9827a73 the io.EOF exemption is the server's only: with isClient
+   the same helper gives End.Error = nil iff appErr == nil *)
+Definition end_helper_client (r : res) : sev := End (res_ok r).
 
 (* ------------------------------------------------------------------ *)
 (* client, unary: client.go invoke l.100-171 + multiplexer.go CallUnaryMethod *)
@@ -39,12 +43,12 @@ Definition cu_events (x : cu_exit) : list sev :=
   (* l.103 StatsStartServerRPC(isClient = true): TagRPC, Begin; no InHeader *)
   [TagRPC; Begin] ++
   match x with
-  | CU_marshal r => [end_helper r]
-  | CU_early r => [OutHeader; OutPayload; end_helper r]              (* l.116-131 *)
-  | CU_status => [OutHeader; OutPayload; InHeader; end_helper RErr]   (* mux l.122-130 InHeader *)
-  | CU_malformed => [OutHeader; OutPayload; InHeader; end_helper RErr]
-  | CU_unmarshal => [OutHeader; OutPayload; InHeader; InPayload; end_helper RErr]   (* l.161-168 *)
-  | CU_ok => [OutHeader; OutPayload; InHeader; InPayload; end_helper RNil]
+  | CU_marshal r => [end_helper_client r]
+  | CU_early r => [OutHeader; OutPayload; end_helper_client r]              (* l.116-131 *)
+  | CU_status => [OutHeader; OutPayload; InHeader; end_helper_client RErr]   (* mux l.122-130 InHeader *)
+  | CU_malformed => [OutHeader; OutPayload; InHeader; end_helper_client RErr]
+  | CU_unmarshal => [OutHeader; OutPayload; InHeader; InPayload; end_helper_client RErr]   (* l.161-168 *)
+  | CU_ok => [OutHeader; OutPayload; InHeader; InPayload; end_helper_client RNil]
   end.
 
 Definition cu_success (x : cu_exit) : bool :=
